@@ -97,7 +97,8 @@ def gen_plan(rng, maxlen):
             plan.append({"t": "train", "slot": slot, "bases": True, "opt": rng.choice(sorted(so.OPTIMS)), "epochs": rng.choice([1, 2, 3]),
                          "lr": rng.choice([0.05, 0.5])})
         elif r < 0.83:
-            plan.append({"t": "train", "slot": slot, "bases": False, "opt": "sgd", "epochs": 1})
+            # the refusal must not depend on the stop flag left behind by an earlier (stopped) run
+            plan.append({"t": "train", "slot": slot, "bases": False, "opt": "sgd", "epochs": 1, "stopped": rng.random() < 0.5})
         elif r < 0.93:
             plan.append({"t": "reinit", "slot": slot})
             if rng.random() < 0.4:  # ... and train the re-initialised state (parameter order / identity after a reset)
@@ -418,7 +419,7 @@ def fixed_cases():
         c(t="mkModule", mslot=0, k="binary", nv=2, nh=3, na=None), c(t="writeModule", mslot=0),
         c(t="constructFrom", slot=0, kind="cplx", mslot=0, ud=None), c(t="write", slot=0, net="rbm_am"), c(t="write", slot=0, net="rbm_ph"),
         c(t="constructFrom", slot=1, kind="pos", mslot=0, ud=None), c(t="reinit", slot=1), c(t="writeModule", mslot=0),
-        c(t="train", slot=0, bases=False, opt="sgd", epochs=1), c(t="train", slot=0, bases=True, opt="nest", epochs=2, lr=0.5),
+        c(t="train", slot=0, bases=False, opt="sgd", epochs=1), c(t="train", slot=0, bases=False, opt="sgd", epochs=1, stopped=True), c(t="train", slot=0, bases=True, opt="nest", epochs=2, lr=0.5),
         c(t="constructFrom", slot=2, kind="dens", mslot=0, ud=None), c(t="reinit", slot=0), c(t="write", slot=0, net="rbm_ph")]}
     yield {"type": "history", "tseed": 202, "plan": [
         c(t="mkModule", mslot=1, k="purif", nv=2, nh=1, na=3), c(t="writeModule", mslot=1),
